@@ -80,6 +80,17 @@ def check_case(idxs, acc):
         probs, n = e2e.readback_problems(txt, readers, rmaps, qmaps, only_valid=False)
         if n != len(rows):
             found.append(('written-record-count', 'wrote %d rows, file has %d records' % (len(rows), n), 'writer', {}))
+        else:
+            # "confidence to two decimals": what is read back is the alignment's confidence at two decimals
+            from mc import xmaptext
+            try:
+                back = readers[1].readAlignments(io.StringIO(txt))
+                for b, row in zip(back, rows):
+                    if abs(float(b.confidence) - float('%.2f' % row.confidence)) > 1e-9:
+                        found.append(('confidence-not-to-two-decimals', 'alignment confidence %r reads back as %r' % (row.confidence, b.confidence),
+                                      'writer', {}))
+            except Exception:
+                pass
         found += [(s, 'records=%s %s' % (list(idxs), dt), 'reader', sig) for s, dt, sig in probs]
     if acc is not None:
         acc.evals += 1
